@@ -648,3 +648,22 @@ Fixpoint decode_all_loop (fuel : nat) (d : decoder) (acc : list wrecord) : list 
   end.
 Definition decode_all (segs : list bytes) : list wrecord * option werr * N :=
   decode_all_loop (scan_fuel segs) (new_decoder segs) [].
+
+(* ================================================================ specification helpers *)
+(* the byte stream the encoder produces for a list of (type, data) from a starting crc, with the
+   final crc; and the records as stored (crc filled in) *)
+Fixpoint encode_all (crc : N) (recs : list (N * option bytes)) : bytes * N :=
+  match recs with
+  | [] => ([], crc)
+  | (ty, d) :: rest =>
+    let '(fr, crc') := encode_rec crc ty d in
+    let '(bs, crc'') := encode_all crc' rest in
+    (fr ++ bs, crc'')
+  end.
+Fixpoint stored (crc : N) (recs : list (N * option bytes)) : list wrecord :=
+  match recs with
+  | [] => []
+  | (ty, d) :: rest =>
+    let crc' := crc_update crc (data_or_nil d) in
+    {| r_type := ty; r_crc := crc'; r_data := d |} :: stored crc' rest
+  end.
